@@ -100,7 +100,14 @@ def find_locks(prog):
 
 
 def build(sc, env):
-    prog = Program({"hier": HIER, "methods": sc["methods"], "host": sc["host"]}, env=env)
+    # every lock the library creates for these objects is a cooperative one (a blocked acquirer yields to the
+    # harness' scheduler instead of sleeping in C), wherever the library chooses to store it
+    old = threading.Lock, threading.RLock
+    threading.Lock = threading.RLock = SC.CoopLock
+    try:
+        prog = Program({"hier": HIER, "methods": sc["methods"], "host": sc["host"]}, env=env)
+    finally:
+        threading.Lock, threading.RLock = old
     for c in sc["warm"]:
         observe(prog, c, env)
     return prog
@@ -121,10 +128,8 @@ def sequential(sc, env, calls):
 def run_schedule(sc, env, racers, schedule):
     prog = build(sc, env)
     s = SC.Scheduler(schedule)
+    SC.CURRENT[0] = s
     replaced = []
-    for holder, name in find_locks(prog):
-        replaced.append((holder, name, getattr(holder, name)))
-        setattr(holder, name, SC.CoopLock(s))
     results = {}
 
     def mk(i, c):
@@ -139,8 +144,7 @@ def run_schedule(sc, env, racers, schedule):
     try:
         raw = s.run()
     finally:
-        for holder, name, old in replaced:
-            setattr(holder, name, old)
+        SC.CURRENT[0] = None
     return prog, s, raw, results
 
 
@@ -178,7 +182,9 @@ def run_case(spec):
                                                "register_signature", "recode", "adapt_function", "sort_types",
                                                "generate_dispatch", "wrap_dependent", "generate_dependent_dispatch",
                                                "first_entry", "instantiate_code", "analyze_arguments", "ensure_compiled")]
-        res.nontrivial = bool(inside)
+        # at least one pre-emption took place while the pre-empted thread was inside library / generated code and
+        # another thread still had work to do (labels below say where, when the function names are recognised)
+        res.nontrivial = bool(where)
         res.key = f"{spec['scenario']}:{spec.get('variant', 0)}:{spec.get('swap')}:{spec.get('threads', 2)}:" + \
                   ",".join(f"{p[1]}:{p[2]}" for p in where)
         res.label("scenario:" + spec["scenario"], f"preemptions:{len(where)}", f"threads:{len(racers)}")
